@@ -30,7 +30,8 @@ GAIN = st.one_of(st.sampled_from([1.0, 2.0, 0.5, 16.0]), st.floats(0.1, 50.0))
 
 @st.composite
 def base_sample(draw, max_d=6, max_n=40):
-    spec = draw(sample_spec(min_d=1, max_d=max_d, min_n=1, max_n=max_n, datatypes=('I', 'I', 'F'), log_amp=False,
+    many = max_d >= 6 and draw(st.integers(0, 7)) == 0          # ten or more parameters: two-digit keyword numbers
+    spec = draw(sample_spec(min_d=10 if many else 1, max_d=12 if many else max_d, min_n=1, max_n=max_n, datatypes=('I', 'I', 'F'), log_amp=False,
                             int_widths=(16, 32), with_time=True))          # a channel may be called 'Time': still a channel
     D = len(spec['widths'])
     if draw(st.sampled_from([True, False, False, False])):
@@ -261,6 +262,16 @@ def check(case, obs):
               and (is_array or [list(r) for r in o.range()] == [list(r) for r in out.range()]))
         obs.claim('equiv', ok, lambda: '%s differs from the one-call result (%r)' % (what, o if raised(o) else ''))
 
+    # a converted sample is a sample: converting one of its channels again, with settings given by the caller,
+    # applies that law to the values it holds now
+    if k >= 1 and not raised(out):
+        ch0 = chs[0]
+        j0 = sel[0]
+        again = call(tr.to_rfi, out, ch0, amplification_type=(0.0, 0.0), amplifier_gain=4.0)
+        want = np.asarray(out, dtype=float)[:, j0] / 4.0
+        obs.claim('law', not raised(again) and bool(np.array_equal(np.asarray(again)[:, j0], want, equal_nan=True)),
+                  lambda: 'converting channel %r of an already converted sample with an explicit linear gain 4: %r' % (
+                      ch0, again if raised(again) else 'values are not x/4'))
     perm = list(np.random.Generator(np.random.PCG64(case['order_seed'])).permutation(k))
     for order, nm in ((perm, 'sequential (drawn order)'), (list(reversed(range(k))), 'sequential (reversed)')):
         cur = data
